@@ -82,9 +82,27 @@ def parser_cases(ctx, streams=("struct", "small")):
                 yield s, c, ctx.rust[s].get(c.id, [])
 
 
+def bigtx_violations(ctx, what):
+    """the scripted gigabyte transactions (B robigtx*): x_bigtx=ok, or <form>:<what failed>[:got:want], or panic"""
+    v = []
+    for c in ctx.cases.get("struct", []):
+        if c.kind != "B":
+            continue
+        r = first(ctx.rust["struct"].get(c.id) or [], "x_bigtx")
+        if r is None:
+            r = "panic"      # no output: the process died
+        if r == "ok":
+            continue
+        if what == "panic" and "panic" in r:
+            v.append(([c.id], "parsing a transaction with a script of 2^%s bytes, or one of its accessors, panics" % c.raw.split(" ")[2]))
+        elif what != "panic" and (":" + what) in r:
+            v.append(([c.id], "transaction with a script of 2^%s bytes: %s" % (c.raw.split(" ")[2], r)))
+    return v
+
+
 # ------------------------------------------------------------------ C01
 def o_C01(ctx):
-    v = []
+    v = bigtx_violations(ctx, "panic")
     for s, c, t in parser_cases(ctx, ("struct", "small", "len", "num")):
         r = res_of(t)
         if first(t, "x_timeout") == "1":
@@ -105,7 +123,7 @@ def o_C01(ctx):
 
 # ------------------------------------------------------------------ C02
 def o_C02(ctx):
-    v = []
+    v = bigtx_violations(ctx, "consumed")
     for s, c, t in parser_cases(ctx):
         if res_of(t) != ("ok",) or first(t, "x_accpanic") == "1":
             continue
@@ -315,7 +333,7 @@ def cut_before_locktime(c):
 
 
 def o_C16(ctx):
-    v = []
+    v = bigtx_violations(ctx, "weight")
     for s, c, t in parser_cases(ctx):
         if c.entry != "transaction" or res_of(t) != ("ok",) or first(t, "x_accpanic") == "1":
             continue
@@ -500,7 +518,7 @@ def o_C09(ctx):
 
 # ------------------------------------------------------------------ C10
 def o_C10(ctx):
-    v = []
+    v = bigtx_violations(ctx, "preimage_len")
     for s_, c_, t_ in parser_cases(ctx):
         if first(t_, "x_cbhash") == "0":
             v.append(([c_.id], "%s: the block hash (or its preimage) obtained from the header INSIDE the visit_block_header callback is not the double SHA-256 of the 80 header bytes" % c_.entry))
@@ -714,6 +732,10 @@ def o_C20(ctx):
         exp = "0" if a < b else ("1" if a == b else "2")
         if first(t, "cmp") != exp:
             v.append(([c.id], "outpoint key order: compare gives %s, lexicographic order gives %s" % (first(t, "cmp"), exp)))
+    for c in ctx.cases.get("cache", []):
+        raw = ctx.rust["cache"].get(c.id) or []
+        if any(k == "x_getvalue_mismatch" for k, _ in raw):
+            v.append(([c.id], "a value decoded from the cache with get_value (identity decoder OutPoint) is not the stored representation: as_bytes differs from the bytes that were inserted"))
     for c in ctx.cases.get("redb", []):
         t = ctx.rust["redb"].get(c.id, [])
         r = first(t, "x_redb")
@@ -865,6 +887,8 @@ def cache_oracles(ctx, prop):
                 for kk, val in st["extra"]:
                     if kk == "x_overlap":
                         bad.append("storage regions of retrievable keys %s overlap" % val)
+                    if kk == "x_getvalue_mismatch":
+                        bad.append("the typed lookup get_value is not handed exactly the stored bytes (identity decoder OutPoint: other window than get())")
             if prop == "C11":
                 idxs = sorted(latest[k] for k in retr if k in latest)
                 m = len(idxs)
